@@ -688,7 +688,10 @@ def exc_enum(e):
 
 
 class alarm:
-    """with alarm(3): ...  raises TimeoutError inside the block after n seconds (main thread)."""
+    """with alarm(3): ...  raises TimeoutError inside the block once the block has used n seconds of CPU time
+    (ITIMER_VIRTUAL: a library call that loops burns CPU; a process that is merely descheduled on a busy machine
+    does not), with a wall-clock backstop of max(12 n, 120) s for calls that block without using CPU.
+    (A plain wall-clock limit raised `hang:` false alarms when the thorough tier ran next to other jobs.)"""
     def __init__(self, seconds):
         self.seconds = seconds
 
@@ -698,10 +701,14 @@ class alarm:
     def __enter__(self):
         import signal
         self.old = signal.signal(signal.SIGALRM, self._h)
-        signal.setitimer(signal.ITIMER_REAL, self.seconds)
+        self.oldv = signal.signal(signal.SIGVTALRM, self._h)
+        signal.setitimer(signal.ITIMER_REAL, max(12 * self.seconds, 120))
+        signal.setitimer(signal.ITIMER_VIRTUAL, self.seconds)
 
     def __exit__(self, *a):
         import signal
+        signal.setitimer(signal.ITIMER_VIRTUAL, 0)
         signal.setitimer(signal.ITIMER_REAL, 0)
+        signal.signal(signal.SIGVTALRM, self.oldv)
         signal.signal(signal.SIGALRM, self.old)
         return False
